@@ -415,12 +415,12 @@ def run(ctx):
         sub_lazy(case)
 
     # every operation at least a few times: one Hypothesis run per operation keeps failures of different ops apart
-    per_op = ctx.n(5, 60)
+    per_op = ctx.n(7, 60)
     for op in sorted(_ops()):
         ctx.given("lazy", cube([op]), per_op, fn=f_lazy, shrink=False)
         # the widest dtype of the operation (no cast, hence no contiguous temporary) with the dimension order as memory order
         widest = DTYPES[_ops()[op][0]][-1]
-        ctx.given("lazy", cube([op]).map(lambda c, widest=widest: dict(c, dtype=widest, materialize=True)), ctx.n(3, 20), fn=f_lazy, shrink=False)
+        ctx.given("lazy", cube([op]).map(lambda c, widest=widest: dict(c, dtype=widest, materialize=True)), ctx.n(6, 20), fn=f_lazy, shrink=False)
 
     def f_j(case):
         rec.case("joint", case, nontrivial=True, cls=["pair:" + case["pair"], "sched:" + case["sched"]])
